@@ -155,33 +155,41 @@ def expand_tables(syn):
     f = syn.fn("ast_expand::expand_binary", crate="prqlc")
     ms = matches_of(f["body"])
     name_match = None
-    swap_match = None
     for m in ms:
         if show(m["e"]) != "op":
             continue
-        first_body = m["arms"][0]["body"]
-        if strs(first_body):
+        if strs(m["arms"][0]["body"]):
             name_match = m
-        else:
-            swap_match = m
-    if name_match is None or swap_match is None:
-        raise AnchorMissing("expand_binary: expected a name match and an operand-order match on `op`")
+    if name_match is None:
+        raise AnchorMissing("expand_binary: expected a match on `op` that names the std function of each operator")
     names = {}
     for head, g, body, line, _ in tables.match_rows(name_match):
         if isinstance(head, str) and head != "_":
             names[last_seg(head)] = (".".join(strs(body)), line)
+    # the operand order: the 2-tuple re-binding of the operands decided by `op` - a match, `if matches!(op, ..)`, or a named boolean; evaluated
+    # per operator (boolfn.leaf), whatever it is spelled like
+    import alpha
+    import boolfn
+    A = alpha.Inliner(f)
+    decision = None
+    for st in f["body"]["s"]:
+        if st.get("k") == "local" and st["pat"].get("k") == "p_tuple" and len(st["pat"]["e"]) == 2 and st.get("init") is not None and st["init"].get("k") in ("match", "if"):
+            decision = st
+    if decision is None:
+        raise AnchorMissing("expand_binary: expected `let (l, r) = <decision on op>` for the operand order")
+    bound = [show(x).replace("mut ", "") for x in decision["pat"]["e"]]
     swaps = {}
-    default_swapped = None
-    for head, g, body, line, _ in tables.match_rows(swap_match):
-        b = tail_expr(body) if body.get("k") == "block" else body
-        order = [show(e) for e in b["e"]] if b.get("k") == "tuple" else None
-        swapped = order == ["right", "left"]
-        if order not in (["left", "right"], ["right", "left"]):
-            swapped = None
-        if head == "_":
-            default_swapped = swapped
-        elif isinstance(head, str):
-            swaps[last_seg(head)] = swapped
+    binop = syn.adt("BinOp", crate="prqlc_parser")
+    for v in tables.enum_variants(binop):
+        try:
+            leafn = boolfn.leaf(decision["init"], lambda t, v=v: ("BinOp::" + v) if t.replace(" ", "") in ("op", "&op", "*op") else None, A)
+            order = [show(e) for e in leafn["e"]] if leafn.get("k") == "tuple" else None
+        except boolfn.Unknown:
+            order = None
+        swaps[v] = True if order == [bound[1], bound[0]] else False if order == bound else None
+    vals = [x for k_, x in swaps.items() if k_ != "Pow"]
+    default_swapped = vals[0] if vals and all(x == vals[0] for x in vals) else None
+    swaps = {k_: x for k_, x in swaps.items() if x != default_swapped}
     return f, names, swaps, default_swapped
 
 
